@@ -13,6 +13,8 @@ RULE = ("Generated: three state types, n 1..5 (density 1..4), nh 1..4, na 1..3, 
         "(enumerated hidden/aux units) and O_hat a dense Kronecker-product operator (Pauli X, Pauli Y=[[0,-i],[i,0]], Z with the "
         "library's documented spin convention outcome 0 -> -1, 1 -> +1). Non-trivial = all biases non-zero and, for complex/"
         "density states, |<Y>| > 1e-6.")
+RULE_EXT = ('Extended as built: the same observable object is applied three times (results must agree), batches of up to 25003 rows (row i must equal the value of its basis state), n up to 8 for pure states.')
+RULE = RULE + " " + RULE_EXT
 ASSUMPTIONS = ["Z / ZZ use the library's own to_pm1 convention (0 -> -1); asserting the textbook |0> -> +1 would demand what the code never claims",
                "absolute tolerance 1e-7 on expectation values (all are O(1))"]
 
